@@ -96,7 +96,16 @@ fn run_cache_sequence(seq: &[COp]) -> (Option<(&'static str, String)>, bool) {
     (None, nontrivial)
 }
 fn judge_cache(seq: &[COp], a: &mut Acc, exhaustive: bool) {
-    let (viol, nt) = run_cache_sequence(seq);
+    let (viol, nt) = match std::panic::catch_unwind(|| run_cache_sequence(seq)) {
+        Ok(r) => r,
+        Err(_) => {
+            let p = crate::runner::take_panics();
+            match p.iter().find(|x| x.in_library()) {
+                Some(p) => (Some(("panic", format!("panic inside the library: {} at {}:{}", p.msg, p.file, p.line))), false),
+                None => { a.harness_error(format!("panic outside the library while running a cache sequence: {:?}", p.first().map(|x| (&x.msg, &x.file, x.line))), J::Null); (None, false) }
+            }
+        }
+    };
     a.evaluations += 1;
     if nt {
         if exhaustive { a.nt_extra += 1; } else { a.nontrivial.insert(hash_of(seq)); }
@@ -315,16 +324,31 @@ pub fn concurrent_round(rng: &mut Rng, a: &mut Acc, small: bool) {
     let threads = if small { 3 } else { *rng.pick(&[2usize, 3, 4, 8, 16]) };
     let ops = if small { 40 } else { 50 + rng.usize(250) };
     let seed = rng.next() >> 8;
-    let mut v = vec![];
-    let (ov, n) = if rng.chance(1, 2) {
-        let keys = 1 + rng.usize(3);
-        let r = cache_concurrent(seed, threads, ops, keys, &mut v);
+    let which = rng.chance(1, 2);
+    let keys = 1 + rng.usize(3);
+    let uv = rng.chance(1, 2);
+    // a panic of a library call inside one of the threads propagates out of the scope: it is a violation
+    let round = std::panic::catch_unwind(std::panic::AssertUnwindSafe(|| { let mut v = vec![]; let r = if which { cache_concurrent(seed, threads, ops, keys, &mut v) } else { dominance_concurrent(seed, threads, ops, uv, &mut v) }; (r, v) }));
+    let (pre, mut v) = match round {
+        Ok((r, v)) => (r, v),
+        Err(_) => {
+            let p = crate::runner::take_panics();
+            a.evaluations += 1;
+            match p.iter().find(|x| x.in_library()) {
+                Some(p) => a.violation(PROP, "panic", format!("panic inside the library during a concurrent history: {} at {}:{}", p.msg, p.file, p.line), J::obj(), J::obj().set("kind", J::s(if which { "cache_concurrent" } else { "dominance_concurrent" })).set("seed", J::Int(seed as i64)).set("threads", J::i(threads)).set("ops", J::i(ops)).set("keys", J::i(keys)).set("use_value", J::Bool(uv))),
+                None => a.harness_error(format!("panic outside the library during a concurrent history: {:?}", p.first().map(|x| (&x.msg, &x.file, x.line))), J::Null),
+            }
+            return;
+        }
+    };
+    let (ov, n) = if which {
+        let r = pre;
         a.bump("cache_concurrent_histories", 1);
         a.bump("cache_concurrent_operations", r.1);
         a.bump("cache_overlapping_same_key_pairs", r.0);
         r
     } else {
-        let r = dominance_concurrent(seed, threads, ops, rng.chance(1, 2), &mut v);
+        let r = pre;
         a.bump("dominance_concurrent_histories", 1);
         a.bump("dominance_concurrent_operations", r.1);
         a.bump("dominance_overlapping_same_key_pairs", r.0);
